@@ -6,7 +6,7 @@ package main
 //        -> `ok <hex of the login record>` | `err`      real LoginConfig.pack vs the Lean interpreter of the
 //           regenerated layout (Gen/LoginLayout.lean)
 //   lwc <n> <rounds>                                    (oracle only) n encrypted logins at the same time: session keys fresh
-//   lw <enc> <pwhex> <nremote> <noncelen> <userhex>     (oracle only, no model)
+//   lw <enc> <pwhex> <nremote> <noncelen> <userhex> [<nonce kind g|z|z2|lz|ff>]    (oracle only, no model)
 //        -> `ok …` | violated clause: a full Login against the scripted peer; everything the client wrote
 //           and every error text is searched for the secrets, the ciphertexts are decrypted with the
 //           peer's private key (RSA-OAEP/SHA-1) and compared with nonce || secret.
@@ -159,8 +159,13 @@ func bodiesOf(w []byte) [][]byte {
 }
 
 func lwImpl(f []string) string {
-	if len(f) != 5 {
+	if len(f) != 5 && len(f) != 6 {
 		return "bad-op"
+	}
+	nonceKind := "g"
+	if len(f) == 6 {
+		nonceKind = f[5]
+		f = f[:5]
 	}
 	enc, e1 := strconv.Atoi(f[0])
 	pw := unhx(f[1])
@@ -201,6 +206,25 @@ func lwImpl(f []string) string {
 		}
 		lastCfg = cfg
 		nonce = genBytes(nlen, 17)
+		// a nonce is arbitrary bytes: ending in NUL bytes, starting with them, nothing but them
+		switch nonceKind {
+		case "z":
+			if nlen > 0 {
+				nonce[nlen-1] = 0
+			}
+		case "z2":
+			for i := nlen / 2; i < nlen; i++ {
+				nonce[i] = 0
+			}
+		case "lz":
+			if nlen > 0 {
+				nonce[0] = 0
+			}
+		case "ff":
+			for i := range nonce {
+				nonce[i] = 0xff
+			}
+		}
 		if enc == 35 {
 			m1 := append(wLoginAck(7, "ASE"), wMsg(1, 35)...)
 			m1 = append(m1, wParamFmt([]wFmt{{datatype: 0x38}, {datatype: 0xE1, fmtBytes: le32(0x7fffffff)}, {datatype: 0xE1, fmtBytes: le32(0x7fffffff)}})...)
@@ -533,6 +557,10 @@ func init() {
 				emit(Case{Line: fmt.Sprintf("lw 35 %s %d %d %s", hx(pw), pl%3, 16, hx([]byte("sa"))), Kind: "wire-boundary"})
 				emit(Case{Line: fmt.Sprintf("lw 0 %s 0 16 %s", hx(pw), hx([]byte("sa"))), Kind: "wire-plain-control"})
 			}
+			// nonces ending in / starting with NUL bytes
+			for _, nk := range []string{"z", "z2", "lz", "ff"} {
+				emit(Case{Line: fmt.Sprintf("lw 35 %s 1 16 %s %s", hx([]byte("Secret-pw-1")), hx([]byte("sa")), nk), Kind: "wire-nonce-bytes"})
+			}
 			// password equal to the user name (a clear-text occurrence that is NOT the password slot)
 			emit(Case{Line: fmt.Sprintf("lw 35 %s 1 16 %s", hx([]byte("samename")), hx([]byte("other"))), Kind: "wire-boundary"})
 			// several connections logging in at the same time (a pool warming up)
@@ -545,7 +573,7 @@ func init() {
 			}
 			for i := 0; i < nw; i++ {
 				pw := rndText(rng, 6+rng.Intn(40))
-				emit(Case{Line: fmt.Sprintf("lw 35 %s %d %d %s", hx(pw), rng.Intn(4), []int{1, 8, 16, 32, 54, 64}[rng.Intn(6)], hx(rndText(rng, 1+rng.Intn(20)))), Kind: "wire-random"})
+				emit(Case{Line: fmt.Sprintf("lw 35 %s %d %d %s %s", hx(pw), rng.Intn(4), []int{1, 8, 16, 32, 54, 64}[rng.Intn(6)], hx(rndText(rng, 1+rng.Intn(20))), []string{"g", "z", "z2", "lz", "ff"}[rng.Intn(5)]), Kind: "wire-random"})
 			}
 		},
 		Impl:    c09Impl,
